@@ -35,12 +35,20 @@ pub struct Input { pub name: &'static str, pub tool: &'static str, pub game: &'s
 
 pub fn corpus() -> Vec<Input> {
     let mut v = vec![];
-    let mut add = |name, tool, game, extra: Vec<&'static str>, source: String, mapfile: Option<&str>, dec: bool| v.push(Input { name, tool, game, extra, source, mapfile: mapfile.map(String::from), also_decompile: dec });
+    // register names come from the user-facing map files, which the bare CLI does not load: sources are written with
+    // I0..I3 / F0..F3 and spelled as raw registers of the game here
+    let regs = |tool: &str, game: &str, src: String| -> String {
+        let (ib, fb, step): (i32, i32, i32) = match (tool, game) { ("truanm", _) => (10000, 10004, 1), ("truecl", "th06") => (-10001, -10005, -1), ("truecl", _) => (10000, 10004, 1), _ => return src };
+        let mut s = src;
+        for k in 0..4 { s = s.replace(&format!("I{k}"), &format!("$REG[{}]", ib + step * k)).replace(&format!("F{k}"), &format!("%REG[{}]", fb + step * k)); }
+        s
+    };
+    let mut add = |name, tool: &'static str, game: &'static str, extra: Vec<&'static str>, source: String, mapfile: Option<&str>, dec: bool| v.push(Input { name, tool, game, extra, source: regs(tool, game, source), mapfile: mapfile.map(String::from), also_decompile: dec });
     // -- competing diagnostics
     add("ecl07-param-aliases", "truecl", "th07", vec![], "void sub0(int a, int b, float x) {\n    $REG[10029] = $REG[10030] + 1;\n    a = b;\n    %REG[10033] = x;\n}\nscript timeline0 {}\n".into(), None, true);
     add("ecl07-param-aliases-4", "truecl", "th07", vec![], "void sub0(int a, int b, int c, int d, float x, float y) {\n    $REG[10029] = $REG[10030] + $REG[10031] + $REG[10032];\n    a = b + c + d;\n    %REG[10033] = x + %REG[10034];\n    y = 1.0;\n}\nvoid sub1(int p, int q) { $REG[10029] = $REG[10030]; p = q; }\nscript timeline0 {}\n".into(), None, true);
     add("ecl08-param-aliases", "truecl", "th08", vec![], "void sub0(int a, int b, float x) {\n    $REG[10029] = $REG[10030] + 1;\n    a = b;\n}\nscript timeline0 {}\n".into(), None, true);
-    add("ecl06-too-complex", "truecl", "th06", vec![], "void sub0() {\n    int a = 1; int b = 2; int c = 3; int d = 4; int e = 5; int f = 6; int g = 7; int h = 8; int i = 9;\n    float x = 1.0; float y = 2.0; float z = 3.0; float w = 4.0; float u = 5.0; float t = 6.0;\n    ins_1(a + b + c + d + e + f + g + h + i);\n}\nscript timeline0 {}\n".into(), None, false);
+    add("ecl06-too-complex", "truecl", "th06", vec![], "void sub0() {\n    int a = 1; int b = 2; int c = 3; int d = 4; int e = 5; int f = 6; int g = 7; int h = 8; int i = 9;\n    float x = 1.0; float y = 2.0; float z = 3.0; float w = 4.0; float u = 5.0; float t = 6.0;\n    I0 = a + b + c + d + e + f + g + h + i;\n}\nscript timeline0 {}\n".into(), None, false);
     add("anm12-two-undefined", "truanm", "th12", vec![], format!("{ANM_HEAD}script s0 {{ ins_1(); foo(nope1, nope2); bar(nope3); }}\nscript s1 {{ baz(nope4); }}\n"), None, false);
     add("anm12-dup-labels", "truanm", "th12", vec![], format!("{ANM_HEAD}script s0 {{ a: a: b: b: goto c; goto d; }}\n"), None, false);
     add("anm12-type-errors", "truanm", "th12", vec![], format!("{ANM_HEAD}script s0 {{ I0 = 1.5; F0 = 2; I1 = \"x\"; ins_3(1.0); }}\n"), None, false);
@@ -52,14 +60,27 @@ pub fn corpus() -> Vec<Input> {
     add("anm12-many-aliases", "truanm", "th12", vec![], format!("{ANM_HEAD}script s0 {{ aa(1); bb(2); cc(3); I0 = AA + BB + CC; }}\n"),
         Some("!anmmap\n!ins_names\n9001 aa\n9002 bb\n9003 cc\n!ins_signatures\n9001 S\n9002 S\n9003 S\n!gvar_names\n10000 AA\n10001 BB\n10002 CC\n!gvar_types\n10000 $\n10001 $\n10002 $\n"), true);
     // -- ordinary inputs of every tool (compile, then decompile the product)
-    add("anm06-basic", "truanm", "th06", vec![], format!("{ANM_HEAD}script s0 {{ ins_1(); +5: ins_2(); }}\nscript s1 {{ ins_1(); }}\n"), None, true);
+    add("anm06-basic", "truanm", "th06", vec![], format!("{ANM_HEAD}script s0 {{ ins_6(); +5: ins_2(1.0, 2.0); }}\nscript s1 {{ ins_7(); }}\n"), None, true);
     add("anm12-locals", "truanm", "th12", vec![], format!("{ANM_HEAD}script s0 {{ int a = 3; int b = a * 2 + I0; float f = 1.5; F0 = f * 2.0; I1 = a + b; loop {{ +1: I0 += 1; if (I0 > 5) break; }} }}\nscript s1 {{ times(3) {{ ins_1(); }} }}\n"), None, true);
     add("anm17-sprites", "truanm", "th17", vec![], format!("{ANM_HEAD}script s0 {{ ins_300(sprite1); ins_300(sprite2); }}\n"), None, true);
-    add("std06-basic", "trustd", "th06", vec![], format!("{STD06_HEAD}script main {{ ins_0(); +10: ins_1(1.0, 2.0, 3.0); ins_4(); }}\n"), None, true);
+    add("std06-basic", "trustd", "th06", vec![], format!("{STD06_HEAD}script main {{ ins_0(0.0, 0.0, 0.0); +10: ins_2(1.0, 2.0, 3.0); ins_3(5); }}\n"), None, true);
     add("msg06-two-scripts", "trumsg", "th06", vec![], format!("{MSG06_HEAD}script script0 {{ ins_1(1, 2); ins_3(0, 0, \"hello\"); +5: ins_0(); }}\nscript script1 {{ ins_3(0, 0, \"world\"); ins_0(); }}\n"), None, true);
     add("msg-unused-scripts", "trumsg", "th06", vec![], format!("{MSG06_HEAD}script script0 {{ ins_0(); }}\nscript script1 {{ ins_0(); }}\nscript unused_a {{ ins_0(); }}\nscript unused_b {{ ins_0(); }}\nscript unused_c {{ ins_0(); }}\n"), None, false);
-    add("ecl06-switches", "truecl", "th06", vec![], "void sub0() {\n    int a = 1:2:3:4;\n    ins_1(a);\n    {\"EN\"}: ins_2(5);\n    times(3) { ins_3(); }\n}\nvoid sub1() { ins_1(0); }\nscript timeline0 { ins_0(sub0, 1.0, 2.0, 3.0, 50, 1000, 1); +10: ins_0(sub1, 1.0, 2.0, 3.0, 50, 1000, 1); }\n".into(), None, true);
-    add("ecl08-calls", "truecl", "th08", vec![], "void sub0(int a, float x) { ins_1(a); }\nvoid sub1() { sub0(5, 1.5); sub0(I0 + 1, F0); }\nscript timeline0 {}\n".into(), None, true);
+    add("ecl06-switches", "truecl", "th06", vec![], "void sub0() {\n    int a = 1:2:3:4;\n    I0 = a;\n    {\"01\"}: I1 = 5;\n    times(3) { ins_0(); }\n}\nvoid sub1() { I0 = 0; }\nscript timeline0 { ins_1(sub0, 1.0, 2.0, 3.0); +10: ins_2(sub1, 1.0, 2.0, 3.0, 50, 1000, 1); }\n".into(), None, true);
+    add("ecl08-calls", "truecl", "th08", vec![], "void sub0(int a, float x) { I2 = a; }\nvoid sub1() { sub0(5, 1.5); sub0(I0 + 1, F0); }\nscript timeline0 {}\n".into(), None, true);
+    // -- one input per hash-ordered container in truth (intrinsic tables, resolver ribs, meta field sets, timeline
+    //    names, label reference counts): each fills the container with several entries and uses what is looked up in it
+    add("anm12-both-countjmps", "truanm", "th12", vec![], format!("{ANM_HEAD}script s0 {{ times(I2 = 5) {{ ins_1(); }} times(3) {{ ins_2(); }} if (--I3) goto l; ins_1();\nl:\n ins_2(); }}\n"),
+        Some("!anmmap\n!ins_signatures\n500 Sot\n!ins_intrinsics\n500 CountJmp(op=\">\")\n"), true);
+    add("anm12-alternative-intrinsics", "truanm", "th12", vec![], format!("{ANM_HEAD}script s0 {{ I0 = -I1; I0 += 2; I0 = I1 + I2; F0 = -F1; F0 *= 2.0; if (I0 == 1) goto l; if (I0 != 1) goto l; if (I0 < 1) goto l; if (F0 > 1.0) goto l; I1 = I0 % 3; times(2) {{ ins_1(); }}\nl:\n ins_2(); }}\n"),
+        Some("!anmmap\n!ins_signatures\n600 SS\n601 SS\n602 SSS\n603 ff\n604 ff\n605 SSot\n606 SSot\n607 Sot\n!ins_intrinsics\n600 UnOp(op=\"-\"; type=\"int\")\n601 AssignOp(op=\"+=\"; type=\"int\")\n602 BinOp(op=\"+\"; type=\"int\")\n603 UnOp(op=\"-\"; type=\"float\")\n604 AssignOp(op=\"*=\"; type=\"float\")\n605 CondJmp(op=\"==\"; type=\"int\")\n606 CondJmp(op=\"!=\"; type=\"int\")\n607 CountJmp(op=\">\")\n"), true);
+    add("anm12-meta-unknown-fields", "truanm", "th12", vec![], format!("{}script s0 {{ ins_1(); }}\n", ANM_HEAD.replacen("entry {", "entry {\n    bogus_a: 1, bogus_b: 2, bogus_c: 3, bogus_d: 4,", 1)), None, false);
+    add("ecl08-timeline-redefinitions", "truecl", "th08", vec![], "void sub0() { }\nscript tl_a { }\nscript tl_a { }\nscript tl_b { }\nscript tl_b { }\nscript tl_c { }\nscript tl_c { }\n".into(), None, false);
+    add("anm12-label-forest", "truanm", "th12", vec![], format!("{ANM_HEAD}script s0 {{\na:\n I0 = 1;\nb:\n if (I0 == 2) goto a;\n if (I0 == 3) goto b;\nc:\n loop {{ I0 += 1; if (I0 > 7) break; loop {{ I1 += 1; if (I1 > 3) break; }} }}\n if (I0 == 4) goto d;\n if (I0 == 5) goto e;\n goto c;\nd:\n ins_1();\ne:\n ins_2();\n while (I2 < 3) {{ I2 += 1; if (I2 == 2) goto f; }}\nf:\n do {{ I3 += 1; }} while (I3 < 2);\n times(2) {{ times(3) {{ ins_1(); }} }}\n}}\nscript s1 {{\nx:\n goto y;\ny:\n goto z;\nz:\n goto x;\n}}\n"), None, true);
+    add("anm12-scope-redefinitions", "truanm", "th12", vec![], format!("{ANM_HEAD}script s0 {{ int a = 1; int a = 2; float b = 1.0; float b = 2.0; int c; int c; const int K = 1; const int K = 2; const int L = 1; const int L = 2; I0 = a + c + K + L; F0 = b; }}\n"), None, false);
+    add("anm12-many-unknown-names", "truanm", "th12", vec![], format!("{ANM_HEAD}script s0 {{ I0 = u1 + u2 + u3 + u4 + u5; goto q1; goto q2; goto q3; q9(); q8(); q7(); }}\n"), None, false);
+    add("std12-meta-unknown-fields", "trustd", "th12", vec![], "meta { zzz_a: 1, zzz_b: 2, zzz_c: 3, unknown: 0, anm_path: \"a.anm\", objects: {}, instances: [] }\nscript main { ins_0(); }\n".into(), None, false);
+    add("msg06-meta-unknown-fields", "trumsg", "th06", vec![], format!("{}script script0 {{ ins_0(); }}\n", MSG06_HEAD.replacen("meta {", "meta {\n    qq_a: 1, qq_b: 2, qq_c: 3,", 1)), None, false);
     v
 }
 
@@ -196,4 +217,17 @@ pub fn replay(detail: &serde_json::Value) -> i32 {
     drive::cleanup_scratch();
     println!("{} distinct outcomes over 8 seeds", outs.len());
     if outs.len() > 1 { 1 } else { 0 }
+}
+
+/// debug aid: exit status and diagnostics head of every corpus input at seed 0
+pub fn debug_print() {
+    let base = drive::scratch_dir().join("c19-debug");
+    for input in corpus() {
+        let o = run_one(&input, &base.join("w"), 0, None);
+        let diags: Vec<String> = String::from_utf8_lossy(&o.stderr).lines().filter(|l| l.starts_with("warning") || l.starts_with("error")).map(|l| l.chars().take(110).collect()).collect();
+        println!("{:32} status {} out_file {} diags {}", input.name, o.status, o.out_file.as_ref().map(|b| b.len() as i64).unwrap_or(-1), diags.len());
+        for d in diags.iter().take(6) { println!("      {d}"); }
+        if input.also_decompile { if let Some(b) = &o.out_file { let d = run_one(&input, &base.join("w"), 0, Some(b)); println!("      decompile status {} stdout {} bytes, stderr lines {}", d.status, d.stdout.len(), String::from_utf8_lossy(&d.stderr).lines().count()); } }
+    }
+    drive::cleanup_scratch();
 }
